@@ -293,3 +293,145 @@ def descriptor_owner_problems(repo: Repo, modules: Optional[Tuple[str, ...]] = N
                                  '.detach() or duplicate it (os.dup / socket.fromfd)'
                                  % (fi.qualname, x.lineno, name, ast.unparse(fd), ast.unparse(fd.func.value)))
     return sorted(set(probs)), n
+
+
+# --------------------------------------------------------------------------- attributes exist for every class that inherits the reader
+
+def _ext_base_has(name: str, attr: str, module) -> Optional[bool]:
+    """does the external base class (``socketserver.ThreadingTCPServer``, ``threading.Thread``, ``object`` ...) define ``attr``?
+    None when the base cannot be looked at (not a standard-library class)."""
+    if name in ('object',):
+        return hasattr(object, attr)
+    parts = name.split('.')
+    imports = getattr(module, 'imports', {}) or {}
+    head = imports.get(parts[0])
+    full = name
+    path = getattr(head, 'path', None)
+    if isinstance(path, str):
+        full = '.'.join([path] + parts[1:])
+    full = full.replace('six.moves.socketserver', 'socketserver').replace('six.moves.queue', 'queue').replace('six.moves.', '')
+    mod, _, cls_ = full.rpartition('.')
+    std = ('socketserver', 'threading', 'queue', 'socket', 'collections', 'io', 'dict', 'list', 'Exception', 'builtins', 'enum')
+    if not mod:
+        import builtins
+        k = getattr(builtins, cls_, None)
+        return hasattr(k, attr) if isinstance(k, type) else None
+    if mod.split('.')[0] not in std:
+        return None
+    try:
+        k = getattr(importlib.import_module(mod), cls_, None)
+    except Exception:
+        return None
+    if not isinstance(k, type):
+        return None
+    if hasattr(k, attr):
+        return True
+    # instance attributes the standard class sets in its own constructor
+    import inspect
+    try:
+        src = inspect.getsource(k)
+    except Exception:
+        return None
+    return ('self.%s =' % attr) in src or ('self.%s=' % attr) in src or any(
+        ('self.%s =' % attr) in (inspect.getsource(b) if b is not object else '') for b in k.__mro__[1:] if b.__module__ != 'builtins')
+
+
+def missing_attribute_problems(repo: Repo, modules: Optional[Tuple[str, ...]] = None) -> Tuple[List[str], int]:
+    """A method defined in class C runs with ``self`` an instance of C or of any subclass.  Every attribute it reads through
+    ``self`` must exist for each of them: a class attribute / method / property somewhere in that class's resolution order, or
+    an instance attribute some method of a class *in that order* assigns.  An attribute that only a sibling's constructor sets
+    (the feature was wired into ``AE.__init__`` but the reader sits in the shared base) is an AttributeError for the others.
+    Attributes that any code assigns from outside (``obj.x = ..`` on a receiver other than self) count as defined everywhere.
+    Classes without a constructor anywhere in their package ancestry (mix-ins) are not receivers on their own.
+    -> (problems, number of attribute reads examined)"""
+    classes = list(repo.all_classes())
+    subs: Dict[str, List] = {c.key: [] for c in classes}
+    for c in classes:
+        for a in c.mro()[1:]:
+            if a.key in subs:
+                subs[a.key].append(c)
+    foreign_stores: Set[str] = set()
+    self_stores: Dict[str, Set[str]] = {c.key: set() for c in classes}
+    for m in repo.modules.values():
+        for n in ast.walk(m.tree):
+            if isinstance(n, ast.Attribute) and isinstance(n.ctx, ast.Store) and not (isinstance(n.value, ast.Name) and n.value.id in ('self', 'cls')):
+                foreign_stores.add(n.attr)
+            if isinstance(n, ast.Call) and isinstance(n.func, ast.Name) and n.func.id == 'setattr' and len(n.args) == 3:
+                if isinstance(n.args[1], ast.Constant):
+                    foreign_stores.add(n.args[1].value)
+                elif isinstance(n.args[0], ast.Name) and n.args[0].id not in ('self', 'cls'):
+                    foreign_stores.add('*')       # computed names on an object of unknown class: nothing can be said
+    for c in classes:
+        for f in list(c.methods.values()) + list(c.setters.values()):
+            for n in ast.walk(f.node):
+                if isinstance(n, ast.Attribute) and isinstance(n.ctx, ast.Store) and isinstance(n.value, ast.Name) and n.value.id == 'self':
+                    self_stores[c.key].add(n.attr)
+                if isinstance(n, ast.Call) and ast.unparse(n.func) in ('self.__dict__.update', 'vars(self).update'):
+                    self_stores[c.key].add('*')
+                if isinstance(n, ast.Call) and isinstance(n.func, ast.Name) and n.func.id == 'setattr' and len(n.args) == 3 \
+                        and isinstance(n.args[0], ast.Name) and n.args[0].id == 'self':
+                    self_stores[c.key].add(n.args[1].value if isinstance(n.args[1], ast.Constant) else '*')
+    if '*' in foreign_stores:
+        return [], 0
+
+    def defined_for(r, attr) -> Optional[bool]:
+        unknown = False
+        for k in r.mro():
+            if attr in k.attrs or attr in k.methods or attr in k.setters or attr in self_stores[k.key] or '*' in self_stores[k.key]:
+                return True
+            if any(isinstance(st, ast.AnnAssign) and isinstance(st.target, ast.Name) and st.target.id == attr for st in k.node.body):
+                return True
+            if '__getattr__' in k.methods or '__getattribute__' in k.methods or '__slots__' in k.attrs and False:
+                return True
+            for b in k.ext_bases:
+                h = _ext_base_has(b, attr, k.module)
+                if h:
+                    return True
+                if h is None:
+                    unknown = True
+        return None if unknown else False
+    probs: List[str] = []
+    n_reads = 0
+    for c in classes:
+        if modules is not None and c.module.name not in modules:
+            continue
+        receivers = [r for r in [c] + subs[c.key] if any('__init__' in k.methods for k in r.mro())]
+        if not receivers:
+            continue
+        for f in c.methods.values():
+            if f.kind not in ('method', 'property'):
+                continue
+            selfname = f.params[0] if f.params else 'self'
+            seen = set()
+            for n in ast.walk(f.node):
+                if not (isinstance(n, ast.Attribute) and isinstance(n.ctx, ast.Load) and isinstance(n.value, ast.Name) and n.value.id == selfname):
+                    continue
+                if n.attr in seen or n.attr.startswith('__') or n.attr in foreign_stores:
+                    continue
+                seen.add(n.attr)
+                n_reads += 1
+                status = {r.key: defined_for(r, n.attr) for r in receivers}
+                lacking = [r for r in receivers if status[r.key] is False]
+                having = [r for r in receivers if status[r.key] is True]
+                if lacking and having:
+                    # guarded reads (hasattr / getattr with default / try AttributeError) are the author's way of saying "may be absent"
+                    src = ast.unparse(f.node)
+                    if ("hasattr(%s, '%s')" % (selfname, n.attr)) in src or 'AttributeError' in src:
+                        continue
+                    setters = sorted({k.name for r in having for k in r.mro() if n.attr in self_stores[k.key]})
+                    probs.append('%s reads %s.%s (line %d), which is set only in %s: an instance of %s has no such attribute '
+                                 '(AttributeError when this method runs for it)'
+                                 % (f.qualname, selfname, n.attr, n.lineno, ' / '.join(setters) or 'a subclass',
+                                    ' / '.join(sorted(r.name for r in lacking))))
+    return sorted(set(probs)), n_reads
+
+
+def attribute_rule(repo: Repo, rep, prop: str, rule: str, extra_modules: Tuple[str, ...] = ()):
+    from .pitfalls import MEMO_SCOPE
+    rep.rule(rule, 'every attribute a method reads through self exists for every class the method can run for: it is a class attribute, '
+             'a method or property, or assigned by a method of a class in that class\'s own resolution order -- not only by the '
+             'constructor of a sibling', 1)
+    mods = tuple(MEMO_SCOPE[prop]) + tuple(m for m in extra_modules if m not in MEMO_SCOPE[prop])
+    probs, n = missing_attribute_problems(repo, mods)
+    rep.check(not probs, rule, '%s:attributes-defined' % '+'.join(mods), '', '%d attribute reads through self, each defined for every receiver' % n,
+              '; '.join(probs[:4]))
